@@ -700,6 +700,7 @@ static bool own_case(std::string const& op, Toks& in, Out& impl, Out& ref)
     if (fl == "cm") { ok = own_dispatch<trk::TCM>(kind, steps, impl, monitor_only); }
     else if (fl == "m") { ok = own_dispatch<trk::TM>(kind, steps, impl, monitor_only); }
     else if (fl == "c") { ok = own_dispatch<trk::TC>(kind, steps, impl, monitor_only); }
+    else if (fl == "t") { ok = own_dispatch<trk::TT>(kind, steps, impl, monitor_only); }
     if (!ok) { impl.tok("bad-instantiation"); return true; }
     if (monitor_only) {
         // the documented domain: an empty function is not invoked (indices as for std::variant / std::function)
